@@ -555,10 +555,16 @@ class GroupKeyEnvelope:
                 peer_public_key=self.l2_key,
             )
         else:
+            l2_key = self.l2_key
+            if not l2_key:
+                # The L2 key is optional in the envelope when the L2 index is
+                # 31 as it can be derived from the L1 key.
+                l2_key = compute_l2_key(hash_algo, self.l1, self.l2, self)
+
             key_info = os.urandom(32)
             kek = kdf(
                 hash_algo,
-                self.l2_key,
+                l2_key,
                 KDS_SERVICE_LABEL,
                 key_info,
                 32,
